@@ -1821,7 +1821,7 @@ func main() {
 	for i := 0; i < nAuth; i++ {
 		authCase(run, run.RNG.Fork(uint64(i)), nil)
 	}
-	nSeq := run.Scale(150, 2000)
+	nSeq := run.Scale(150, 1500)
 	for i := 0; i < nSeq; i++ {
 		runSeq(run, run.RNG.Fork(uint64(1_000_000+i)), "compile")
 		runSeq(run, run.RNG.Fork(uint64(2_000_000+i)), "resolve")
